@@ -129,6 +129,48 @@ def affine_in_day(ctx):
         ctx.ok('AFFINE-LEMMA', 1, {'fn': fn_site(p, 'JulianDay::from_ymd_hms'), 'tainted': sorted(tainted)})
 
 
+def jd_month_tables(ctx, ym):
+    """the two Julian-day float formulas tabulated per (year, month) against the integer calendar oracle"""
+    p = ctx.prog
+    ctx.rule('JD-MONTH-TABLE', 'Julian-day formulas tabulated per (year, month): first day forwards, first and last day backwards')
+    affine_in_day(ctx)
+    I2 = ctx.interp(fuel=30000000)
+    I2.forbidden.discard('JulianDay::from_ymd_hms')
+    I2.forbidden.discard('JulianDay::get_solar_time')
+    t2 = T(I2)
+
+    def jd_fwd(x):
+        y, m = x
+        first = 15 if (y, m) == (1582, 10) else 1
+        out = [py(t2.m(I2.call('JulianDay::from_ymd_hms', [y, m, 1, 0, 0, 0]), 'get_day'))]
+        if (y, m) == (1582, 10):
+            out.append(py(t2.m(I2.call('JulianDay::from_ymd_hms', [y, m, 15, 0, 0, 0]), 'get_day')))
+        return out
+
+    def jd_fwd_orc(x):
+        y, m = x
+        out = [CAL.jdn(y, m, 1) - 0.5]
+        if (y, m) == (1582, 10):
+            out.append(CAL.jdn(y, m, 15) - 0.5)
+        return out
+    table(ctx, 'JD-MONTH-TABLE', 'JD:from_ymd_hms', ym, jd_fwd, jd_fwd_orc, 'date -> Julian day at the first day of every month (and both sides of the 1582 gap)', lambda x: '%d-%d' % x, fn_site(p, 'JulianDay::from_ymd_hms'))
+
+    def jd_inv(x):
+        y, m = x
+        res = []
+        for d in ((1, CAL.month_last_dom(y, m)) if (y, m) != (1582, 10) else (1, 4, 15, 31)):
+            j = CAL.jdn(y, m, d) - 0.5
+            st = t2.m(SV('JulianDay', {'day': float(j)}), 'get_solar_time')
+            res.append((py(t2.m(st, 'get_year')), py(t2.m(st, 'get_month')), py(t2.m(st, 'get_day')), py(t2.m(st, 'get_hour')), py(t2.m(st, 'get_minute')), py(t2.m(st, 'get_second'))))
+        return res
+
+    def jd_inv_orc(x):
+        y, m = x
+        return [(y, m, d, 0, 0, 0) for d in ((1, CAL.month_last_dom(y, m)) if (y, m) != (1582, 10) else (1, 4, 15, 31))]
+    table(ctx, 'JD-MONTH-TABLE', 'JD:get_solar_time', ym, jd_inv, jd_inv_orc, 'Julian day -> date at the first and last day of every month', lambda x: '%d-%d' % x, fn_site(p, 'JulianDay::get_solar_time'))
+
+
+
 def run(ctx):
     I = ctx.interp(fuel=30000000)
     t = T(I)
@@ -136,7 +178,6 @@ def run(ctx):
     R = 'PETE-TABLE'
     ctx.rule(R, 'finite table over guard-bounded integer domains == calendar oracle')
     ctx.rule('CMP', 'comparator decision table == strict lexicographic order on (year, month, day)')
-    ctx.rule('JD-MONTH-TABLE', 'Julian-day formulas tabulated per (year, month): first day forwards, first and last day backwards')
     ctx.rule('ROUTE', 'stepping / subtraction / day-of-year evaluated with the Julian-day layer replaced by the oracle')
     years = list(range(1, 10000))
 
@@ -179,42 +220,7 @@ def run(ctx):
     table(ctx, 'CMP', 'CMP:SolarDay', [(a, b) for a in pts for b in pts], cmp3, lambda ab: (ab[0] < ab[1], ab[0] > ab[1], ab[0] == ab[1]),
           'is_before / is_after / == over all order types of (year, month, day)', str, fn_site(p, 'SolarDay::is_before'))
 
-    # ---- Julian-day formulas per month (real float code evaluated; ban lifted for exactly these two functions)
-    affine_in_day(ctx)
-    I2 = ctx.interp(fuel=30000000)
-    I2.forbidden.discard('JulianDay::from_ymd_hms')
-    I2.forbidden.discard('JulianDay::get_solar_time')
-    t2 = T(I2)
-
-    def jd_fwd(x):
-        y, m = x
-        first = 15 if (y, m) == (1582, 10) else 1
-        out = [py(t2.m(I2.call('JulianDay::from_ymd_hms', [y, m, 1, 0, 0, 0]), 'get_day'))]
-        if (y, m) == (1582, 10):
-            out.append(py(t2.m(I2.call('JulianDay::from_ymd_hms', [y, m, 15, 0, 0, 0]), 'get_day')))
-        return out
-
-    def jd_fwd_orc(x):
-        y, m = x
-        out = [CAL.jdn(y, m, 1) - 0.5]
-        if (y, m) == (1582, 10):
-            out.append(CAL.jdn(y, m, 15) - 0.5)
-        return out
-    table(ctx, 'JD-MONTH-TABLE', 'JD:from_ymd_hms', ym, jd_fwd, jd_fwd_orc, 'date -> Julian day at the first day of every month (and both sides of the 1582 gap)', lambda x: '%d-%d' % x, fn_site(p, 'JulianDay::from_ymd_hms'))
-
-    def jd_inv(x):
-        y, m = x
-        res = []
-        for d in ((1, CAL.month_last_dom(y, m)) if (y, m) != (1582, 10) else (1, 4, 15, 31)):
-            j = CAL.jdn(y, m, d) - 0.5
-            st = t2.m(SV('JulianDay', {'day': float(j)}), 'get_solar_time')
-            res.append((py(t2.m(st, 'get_year')), py(t2.m(st, 'get_month')), py(t2.m(st, 'get_day')), py(t2.m(st, 'get_hour')), py(t2.m(st, 'get_minute')), py(t2.m(st, 'get_second'))))
-        return res
-
-    def jd_inv_orc(x):
-        y, m = x
-        return [(y, m, d, 0, 0, 0) for d in ((1, CAL.month_last_dom(y, m)) if (y, m) != (1582, 10) else (1, 4, 15, 31))]
-    table(ctx, 'JD-MONTH-TABLE', 'JD:get_solar_time', ym, jd_inv, jd_inv_orc, 'Julian day -> date at the first and last day of every month', lambda x: '%d-%d' % x, fn_site(p, 'JulianDay::get_solar_time'))
+    jd_month_tables(ctx, ym)
 
     # ---- routing: next / subtract / index-in-year with the JD layer replaced by the oracle
     cm = CalModel(I, {}, [])
